@@ -243,6 +243,11 @@ def explore_one(pid, pair, prog, do_twins, rnd):
         fails.append({"kind": "correspondence", "op": k,
                       "descr": "%s: model and implementation differ on the %s projection at op %s" % (props.CORRESPONDENCE[pid], pid, k),
                       "program": prog})
+    ntext = 0
+    if pid == "C19" and not fails:
+        bad, ntext = k_dottext(pair, prog, it)
+        if bad:
+            fails.append({"kind": "correspondence", "descr": "K-dottext: " + bad, "program": prog})
     if do_twins and not fails:
         run = lambda p: pair.impl.ask(json.dumps(p, separators=(",", ":")))   # noqa: E731
         tb = []
@@ -254,7 +259,32 @@ def explore_one(pid, pair, prog, do_twins, rnd):
             tb, tp = props.twin_c17(prog, run)
         if tb:
             fails.append({"kind": "twin", "descr": tb[0], "program": prog})
-    return fails, {"nontrivial": props.nontrivial(pid, prog, it), "mt": mt, "it": it}
+    return fails, {"nontrivial": props.nontrivial(pid, prog, it), "mt": mt, "it": it, "dottext": ntext}
+
+
+def k_dottext(pair, prog, it):
+    """the model writes the text of its own picture with the names the executor reports; byte for byte the library's text"""
+    ops = it.get("ops", [])
+    viz = [i for i, o in enumerate(ops) if isinstance(o, dict) and o.get("dotText") is not None and o.get("dotNames") and o.get("v") == "ok"]
+    if not viz:
+        return None, 0
+    n = 0
+    names = {"types": ops[viz[0]]["dotNames"]["types"], "ctorsAt": {str(i): ops[i]["dotNames"]["ctors"] for i in viz}}
+    mt = pair.model.ask(json.dumps(dict(prog, dotNames=names), separators=(",", ":")))
+    for i in viz:
+        want = ops[i]["dotText"]
+        mo = mt.get("ops", [])
+        got = mo[i].get("dotText") if i < len(mo) and isinstance(mo[i], dict) else None
+        ps = pair.model.ask(json.dumps({"kind": "dotparse", "text": want}, separators=(",", ":")))
+        if not (ps.get("lex") and ps.get("parse")):
+            return "op %d: the text the library wrote is not accepted by the DOT lexer/parser of the model (lex=%s parse=%s)" % (i, ps.get("lex"), ps.get("parse")), n
+        if got is None:
+            continue          # the model draws no picture here (its verdict differs: reported by the projection)
+        n += 1
+        if got != want:
+            k = next((j for j, (a, b) in enumerate(zip(got, want)) if a != b), min(len(got), len(want)))
+            return "op %d: the model's text and the library's differ at byte %d: model %r / library %r" % (i, k, got[max(0, k - 40):k + 40], want[max(0, k - 40):k + 40]), n
+    return None, n
 
 
 def worker(args):
@@ -281,6 +311,8 @@ def worker(args):
         fails.extend(fs[:1])
         if st.get("skipped"):
             skipped += 1
+        if st.get("dottext"):
+            dist["dottext:texts-compared-byte-for-byte"] = dist.get("dottext:texts-compared-byte-for-byte", 0) + st["dottext"]
         if st.get("reentrant"):
             dist["reentrant-programs"] = dist.get("reentrant-programs", 0) + 1
             if st.get("nontrivial"):
